@@ -11,7 +11,7 @@
    for the library entry point, DENOTES the matrix A (entry by entry, under that entry point's storage
    convention) and has right-hand side rhs. *)
 From Coq Require Import ZArith List Bool Lia ZifyBool Ring.
-From PB Require Import lib.SumZ lib.PySlice lib.Arr lib.Loop C11.DtD C11.Table gen.GenBands C11.Banded C07.Model C07.Proofs.
+From PB Require Import lib.SumZ lib.PySlice lib.Arr lib.Loop C11.DtD C11.Table gen.GenBands C11.Banded C07.Model C07.Proofs C07.Extra.
 Import ListNotations.
 Open Scope Z_scope.
 
@@ -184,6 +184,26 @@ Theorem C07_basis_midpoints_odd : forall (O : ops) (half : T O) (knots : list (T
   nth j (basis_midpoints O half knots k) dflt = nth (j + Z.to_nat ((k + 1) / 2)) knots dflt.
 Proof. exact basis_midpoints_odd. Qed.
 Print Assumptions C07_basis_midpoints_odd.
+
+(* ... and for even degree it is the mean of the two knots around the centre of the support (0.5 * (knots[1:] + knots[:-1])
+   sliced): together with C07_basis_midpoints_odd, point j is the midpoint of [t_j, t_{j+k+1}] on equally spaced knots *)
+Theorem C07_basis_midpoints_even : forall (O : ops) (half : T O) (knots : list (T O)) (k nk : Z) (j : nat) (dflt : T O),
+  0 <= k -> k mod 2 = 0 -> 2 <= nk -> Z.of_nat (length knots) = nk + 2 * k -> Z.of_nat j < nk + k - 1 ->
+  nth j (basis_midpoints O half knots k) dflt
+  = mul O half (add O (nth (j + Z.to_nat (k / 2) + 1) knots dflt) (nth (j + Z.to_nat (k / 2)) knots dflt)).
+Proof. exact basis_midpoints_even. Qed.
+Print Assumptions C07_basis_midpoints_even.
+
+(* the systems of the methods that may use the LOWER layout (solveh_banded reads the lower bands only and assumes
+   symmetry) are symmetric, so the symmetric completion in [den] is the matrix itself; drpls / aspls scale rows and
+   are not symmetric -- the model (and the code) force the full layout there (al = false in their theorems) *)
+Theorem C07_lower_systems_symmetric : forall O : ops,
+  ring_theory (zero O) (one O) (add O) (mul O) (sub O) (opp O) eq ->
+  forall (M d : nat) (lam lam1 : T O) (n : nat) (B : Z -> Z -> T O) (w : Z -> T O) (i j : Z),
+  doc_asls O M d lam n B w i j = doc_asls O M d lam n B w j i /\
+  doc_iasls O M d lam lam1 n B w i j = doc_iasls O M d lam lam1 n B w j i.
+Proof. intros O Rth M d lam lam1 n B w i j. exact (conj (doc_asls_sym O Rth M d lam n B w i j) (doc_iasls_sym O Rth M d lam lam1 n B w i j)). Qed.
+Print Assumptions C07_lower_systems_symmetric.
 
 (* C07_Bc: with the banded solver as a library satisfying  den(lhs) * solve(lhs, rhs) = rhs,  the coefficients
    of any pass solve the documented system (the returned spline is  baseline := B c  by definition) *)
